@@ -41,8 +41,10 @@ Record binfo := mkB {
   bopac : bool;          (* style.GetOpacity() < 1 *)
   btrans : bool;         (* len(style.GetTransform()) != 0 *)
   bclip : bool;          (* style.GetOverflow() != "visible" *)
-  bvis : N               (* not used by the model: which events of this box are
+  bvis : N;              (* not used by the model: which events of this box are
                             observable (bit 0 bg, 1 border, 2 content, 3 outline) *)
+  bsing : bool           (* the matrix getMatrix computes for the box has determinant 0
+                            (scale(0), matrix(1,2,2,4,0,0) ...); only read when btrans *)
 }.
 
 Inductive box := Box (i : binfo) (cs : list box).
@@ -79,6 +81,11 @@ Definition point2 (k : kind) : bool :=
 Definition creates_ctx (i : binfo) : bool :=
   (bpos i && match bz i with Some _ => true | None => false end)
   || bopac i || btrans i || bclip i.
+
+(* draw.go:252-258: getMatrix (document.go:42, never for an InlineBox) returns a
+   matrix that is not invertible: drawStackingContext returns before painting anything *)
+Definition singular (i : binfo) : bool :=
+  btrans i && negb (is_inline (bkind i)) && bsing i.
 
 (* ------------------------------------------------- the stacking-context tree *)
 
@@ -261,9 +268,20 @@ Fixpoint paint (c : ctx) : rl :=
     let id := bid i in
     let k := bkind i in
     (* 216-243 (viewport overflow on the root element, `clip` property): not modelled *)
+    (* 245-250: originalDst := ctx.dst; if opacity < 1 { ctx.dst = ctx.dst.NewGroup(...) }
+       252-258: if mat, ok := getMatrix(box_); ok { if mat.Determinant() != 0 { Transform }
+                else { return } }
+       The early return leaves the closure of 211 before anything is painted: no
+       background, border, descendant context, content or outline of the sub-tree.
+       When opacity < 1 the group created at 248 is never passed to DrawWithOpacity
+       (334-340 are skipped): it is abandoned EMPTY, nothing reaches the page from it.
+       drawStackingContext has a value receiver: the assignment of 248 changes the
+       callee's copy of ctx only, so the callers (283-328 of the parent activation)
+       go on painting on THEIR ctx.dst: what follows in the stacking order is painted
+       exactly as if this context were not there.  Hence: no event at all.          *)
+    if singular i then Ok [] else
     let opac := bopac i in                                            (* 246-250 *)
     let trans := btrans i && negb (is_inline k) in                    (* 252, getMatrix document.go:42 *)
-    (* 253-258: a singular matrix (nothing painted) is not modelled *)
     let clip := bclip i && negb (is_page k) in                        (* 274 *)
     let dil_child := fun child : node =>                             (* 1528-1538 loop body *)
       match child with
